@@ -135,13 +135,13 @@ func c14Cmd(g *simrt.Choices, routeKeys *[]string, good *c14Good) string {
 		if clean {
 			fun := []string{"sum", "avg", "count", "max", "min", "last", "delta", "derive", "stdev", "percentiles"}[g.Pick(10)]
 			match := []string{"regex=" + c14Regex[g.Pick(6)], c14Regex[g.Pick(6)], "prefix=stats. regex=" + c14Regex[g.Pick(6)], "notRegex=" + c14Regex[g.Pick(6)] + " regex=^stats", "sub=requests regex=" + c14Regex[g.Pick(6)]}[g.Pick(5)]
-			tail := []string{"", " cache=true", " cache=false dropRaw=true", " dropRaw=false"}[g.Pick(4)]
+			tail := []string{"", " cache=true", " cache=false dropRaw=true", " dropRaw=false", " dropRaw=true", " cache=true dropRaw=true"}[g.Pick(6)]
 			pos := []string{"1", "2", "5", "10", "60"}
 			return fmt.Sprintf("addAgg %s %s %s %s %s%s", fun, match, []string{"agg.$1", "agg", "agg.${1}.x"}[g.Pick(3)], pos[g.Pick(5)], pos[g.Pick(5)], tail)
 		}
 		fun := []string{"sum", "avg", "count", "max", "min", "last", "delta", "derive", "stdev", "percentiles", "sum", "avg", "bogus", ""}[g.Pick(14)]
 		match := []string{"regex=" + c14Regex[g.Pick(6)], "regex=" + c14Regex[g.Pick(len(c14Regex))], c14Regex[g.Pick(6)], "sub=requests", "prefix=stats. regex=" + c14Regex[g.Pick(6)], "notRegex=" + c14Regex[g.Pick(len(c14Regex))] + " regex=^stats"}[g.Pick(6)]
-		tail := []string{"", "", " cache=true", " cache=false dropRaw=true", " dropRaw=maybe", " bogus"}[g.Pick(6)]
+		tail := []string{"", "", " cache=true", " cache=false dropRaw=true", " dropRaw=maybe", " bogus", " dropRaw=true"}[g.Pick(7)]
 		return fmt.Sprintf("addAgg %s %s %s %s %s%s", fun, match, []string{"agg.$1", "agg", "$9", "agg.$1", ""}[g.Pick(5)], c14Int(g), c14Int(g), tail)
 	case 4, 5, 6:
 		if clean {
@@ -495,15 +495,30 @@ func scenC14(x *Exec) {
 				c.Close()
 			}
 		}
-		// ordinary traffic through whatever table the commands built
-		if c := dial(2003); c != nil {
+		// ordinary traffic through whatever table the commands built, on two connections at once
+		var payloads [2]string
+		for k := range payloads {
 			var b strings.Builder
 			for i := 0; i < p.Traffic; i++ {
 				fmt.Fprintf(&b, "%s %d %d\n", c14Names[g.Pick(len(c14Names))], i, 946684800+i)
 			}
-			c.Write([]byte(b.String()))
-			c.Close()
+			payloads[k] = b.String()
 		}
+		sent := 0
+		tcond := simrt.NewCond()
+		for k := range payloads {
+			k := k
+			s.Spawn(fmt.Sprintf("traffic%d", k), "client", "harness", func() {
+				if c := dial(2003); c != nil {
+					c.Write([]byte(payloads[k]))
+					c.Close()
+				}
+				simrt.Yield("traffic-sent")
+				sent++
+				tcond.Broadcast()
+			})
+		}
+		tcond.Wait(func() bool { return sent == len(payloads) }, time.Now().Add(10*time.Minute))
 		// let every ticker and timer that was created from user parameters fire
 		simrt.Sleep(time.Duration(p.AdvanceS) * time.Second)
 		x.Out.Nontrivial = len(p.Cmds)+len(p.Garbage) > 0
